@@ -19,6 +19,9 @@ def check(ctx):
     _tzz.check_offset_fields(ctx, rep)
     ntz = _tzz.check(ctx, rep)
     rep.floor("zone-mapping call sites (R-TZ)", ntz, 10)
+    from rules import units as _un
+    nun, nid = _un.check(ctx, rep)
+    rep.floor("unit identifiers (number literals carry units)", nid, 900)
     n1 = filters.check_spellings(ctx, rep)
     n2 = filters.check_path_rule(ctx, rep)
     n3 = filters.check_skeleton(ctx, rep)
